@@ -551,6 +551,10 @@ class Flow:
                         and isinstance(d.value, (ast.Call, ast.Name, ast.Attribute, ast.Subscript)):
                     # `a, b = f(x)`: a is f(x)[0]
                     base = flow._expand(clone(d.value), d.value, d.node, depth - 1, stop, root)
+                    if isinstance(base, ast.Call) and isinstance(base.func, ast.Name) and base.func.id == "divmod" and len(base.args) == 2 \
+                            and not base.keywords and list(d.index) in ([0], [1]):
+                        # q, r = divmod(a, b): q is a // b and r is a % b - the spelling every rule reads
+                        return ast.copy_location(ast.BinOp(left=base.args[0], op=ast.FloorDiv() if d.index[0] == 0 else ast.Mod(), right=base.args[1]), node)
                     for i in d.index:
                         base = ast.Subscript(value=base, slice=ast.Constant(i), ctx=ast.Load())
                     return ast.copy_location(base, node)
